@@ -66,7 +66,7 @@ impl Property for C02 {
         "C02"
     }
     fn cases(&self, cfg: &Cfg) -> u64 {
-        cfg.tier.pick(400, 20_000)
+        cfg.tier.pick(1_500, 20_000)
     }
     fn run_case(&self, cfg: &Cfg, i: u64, acc: &mut Acc) {
         let mut r = Rng::keyed(&[cfg.seed, 2, i]);
